@@ -55,7 +55,7 @@ func (e Engine) Run(x any) lib.Result {
 		cc.SetFailAt = 0
 		c = &cc
 	}
-	obs := Execute(c)
+	obs := ExecuteFor(c, e.Prop == "C05")
 	res := lib.Result{Obs: obs}
 	var f *Failure
 	if e.Prop == "C05" {
@@ -137,12 +137,20 @@ func tags(c *Case, obs *RunObs) ([]string, bool) {
 	if cyc {
 		t = append(t, "cycle")
 	}
-	leaf, inkey := false, false
+	leaf, inkey, atom, atomRerun := false, false, false, false
 	for _, g := range c.Graphs {
 		for _, n := range g.Nodes {
 			leaf = leaf || n.Leaf
 			inkey = inkey || n.InKey > 0
+			atom = atom || n.Atom
+			atomRerun = atomRerun || n.Atom && len(n.Rerun) > 0
 		}
+	}
+	if atom {
+		t = append(t, "atom-input")
+	}
+	if atomRerun {
+		t = append(t, "atom-input-rerun")
 	}
 	if leaf {
 		t = append(t, "leaf-output")
@@ -158,6 +166,14 @@ func tags(c *Case, obs *RunObs) ([]string, bool) {
 	}
 	if c.Twice {
 		t = append(t, "second-run")
+	}
+	if c.Restart && len(obs.Segs) > 1 {
+		t = append(t, "restart:resumes-on-a-fresh-runnable")
+	}
+	if obs.RetryFault != nil {
+		t = append(t, "retry:"+obs.RetryFault.Class)
+	} else if obs.RetryAt > 0 {
+		t = append(t, "retry:no-lambda-started")
 	}
 	if c.NoStore {
 		t = append(t, "no-store")
